@@ -44,7 +44,8 @@ from harness import core
 
 TITLE = "Problem evaluation (nearest design, decoupled, noise map), dataset scaling, (un)normalize vs Lean model"
 RULE = ("cases: lookup (dyadic designs X, values Y, query batch or single 1-D point, evaluation_index form; shapes "
-        "on-grid / off-grid / midpoint ties / equidistant square centre / duplicate designs / far), noise-util and "
+        "on-grid / off-grid / midpoint ties / equidistant square centre / duplicate designs / far / neardup = two distinct "
+        "designs 2^-10..2^-24 apart with queries on either and 2^-12..2^-30 off their bisector, exact float path), noise-util and "
         "noise-prob (factor shape diagonal / correlated lower / symmetric, draws = basis rows then dyadic rows), "
         "continuous (BraninCurrin incl. zero coordinates, linear synthetic), bundled (4 datasets x scaling / lookup), "
         "synth-ds, roundtrip (dyadic exact / random floats), history (one reused query buffer overwritten in place, 2-5 "
@@ -233,6 +234,68 @@ def _rand_factor(rng, d, shape):
             A[i][j] = A[j][i] = rng.randint(-2, 2) / 2 ** p
         A[i][i] = 2.0 + rng.randint(0, 8) / 2 ** p
     return A
+
+
+def _gen_neardup(rng):
+    """NEAR-DUPLICATE designs: two distinct designs 2^-a apart (a = 10..24); queries ON either of them and at
+    dyadic offsets 2^-b from their bisector on either side.  Two families keep every float operation of the
+    ||x||^2 - 2xy + ||y||^2 expansion exact, so that the unchanged code decides them exactly:
+      origin    the pair sits at the origin (all near terms are tiny few-bit numbers; b up to 30);
+      lattice24 every coordinate is a multiple of 2^-24 with |coordinate| <= 1 (all terms multiples of 2^-48, < 16)."""
+    fam = rng.choice(["origin", "lattice24"])
+    d, m = rng.choice([1, 2, 2, 3]), rng.choice([1, 2, 3])
+    if fam == "origin":
+        a = rng.randint(10, 24)
+        b = rng.randint(max(a + 2, 12), 30)
+        base = [0.0] * d
+    else:
+        a = rng.randint(10, 22)
+        b = rng.randint(a + 2, 24)
+        base = [rng.randint(-6, 6) / 8.0 for _ in range(d)]
+    axis = rng.randrange(d)
+    sgn = rng.choice([-1.0, 1.0])
+    h = sgn * 2.0 ** -a
+    A = list(base)
+    B = list(base)
+    B[axis] += h
+    far = []
+    for _ in range(rng.randint(0, 4)):
+        f = [rng.randint(-8, 8) / 8.0 for _ in range(d)]
+        if max(abs(u - v) for u, v in zip(f, base)) >= 0.125 and f not in far:
+            far.append(f)
+    X = [A, B] + far
+    rng.shuffle(X)
+    n = len(X)
+    Y, seen = [], set()
+    while len(Y) < n:  # pairwise distinct objective rows: a wrong design is always visible
+        r = tuple(core.dyadic(rng, -16, 16, 2) for _ in range(m))
+        if r not in seen:
+            seen.add(r)
+            Y.append(list(r))
+    single = rng.random() < 0.3
+    k = 1 if single else rng.choice([1, 2, 3, 5])
+    xs = []
+    for _ in range(k):
+        t = rng.choice(["onA", "onB", "bisect+", "bisect-", "bisect+", "bisect-", "bisect0", "far"])
+        q = list(base)
+        if t == "onB":
+            q = list(B)
+        elif t.startswith("bisect"):
+            q[axis] += h / 2
+            if t != "bisect0":
+                q[axis] += (1.0 if t == "bisect+" else -1.0) * 2.0 ** -b
+        elif t == "far" and far:
+            q = list(rng.choice(far))
+        xs.append(q)
+    r = rng.random()
+    if r < 0.4:
+        ix = None
+    elif r < 0.6:
+        ix = rng.randrange(m)
+    else:
+        ix = [rng.randrange(m) for _ in range(d if single else k)]
+    return {"kind": "lookup", "shape": "neardup", "family": fam, "a": a, "b": b, "X": X, "Y": Y, "xs": xs,
+            "single": single, "ix": ix}
 
 
 def _gen_noise_util(rng):
@@ -460,7 +523,7 @@ def gen(ctx):
             yield {"kind": "fresh-ds", "name": nm, "scribble": sc, "consumer": co}
     # (hand-picked regression cases live in corpus/C20/ and run first)
     kinds = [("lookup", 45), ("noise-util", 12), ("noise-prob", 12), ("continuous", 9), ("synth-ds", 9),
-             ("roundtrip", 13), ("history", 14)]
+             ("roundtrip", 13), ("history", 14), ("neardup", 14)]
     if ctx.tier == "thorough":
         for _ in range(ctx.n(0, 140)):
             yield _gen_moments(rng)
@@ -480,6 +543,8 @@ def gen(ctx):
             yield _gen_synth_ds(rng)
         elif kind == "history":
             yield _gen_history(rng)
+        elif kind == "neardup":
+            yield _gen_neardup(rng)
         else:
             yield _gen_roundtrip(rng)
 
@@ -584,7 +649,7 @@ def _run_lookup(ctx, case):
     if not same:
         _viol(ctx, "decoupled-model", "DecoupledEvaluationProblem.evaluate differs from the model's selection",
                       case, kind="F", detail={"model": ans, "impl": got_s or np.asarray(got).tolist()})
-    nontrivial = n >= 2 and (tie or case["shape"] in ("offgrid", "far", "mixed", "square") or ix is not None)
+    nontrivial = n >= 2 and (tie or case["shape"] in ("offgrid", "far", "mixed", "square", "neardup") or ix is not None)
     ctx.case_done(case, nontrivial, canon=[X, Y, xs, case["single"], ix])
 
 
